@@ -111,3 +111,35 @@ package signature
 //@   ensures[verified-against-the-listing-subset] res != nil ==> exists k int :: 0 <= k && k < len(v.VerifiedSignedSubsets) && has(v.VerifiedSignedSubsets[k].SignedSubset.SubsetHashes, e.Request.URL.String()) && (forall j int :: 0 <= j && j < k ==> !has(v.VerifiedSignedSubsets[j].SignedSubset.SubsetHashes, e.Request.URL.String())) && res.Authority == v.VerifiedSignedSubsets[k].Authority && v.VerifiedSignedSubsets[k].SignedSubset.SubsetHashes[e.Request.URL.String()] != nil && len(v.VerifiedSignedSubsets[k].SignedSubset.SubsetHashes[e.Request.URL.String()].Hashes) == 1 && len(v.VerifiedSignedSubsets[k].SignedSubset.SubsetHashes[e.Request.URL.String()].VariantsValue) == 0
 //@   ensures[integrity-scheme] res != nil ==> (v.Version == version.VersionB1 || v.Version == version.VersionB2)
 //@   assigns nothing
+
+// Signer side: sign() signs the message built from exactly the bytes it is
+// given, with the signer's algorithm.
+//@ func (*Signer).sign
+//@   props C06
+//@   may_panic
+//@   returns (sig, err)
+//@   ensures[signs-these-bytes] err == nil ==> exists m []byte :: {bytes(m)} subsetMsgOf(bytes(m), bytes(signed), s.Version) && signedWith(s.Algorithm, bytes(m), bytes(sig))
+//@   assigns s.Algorithm
+
+// UpdateSignatures: the new vouched subset points at the first certificate
+// this signer appended (its own leaf), earlier authorities and subsets keep
+// their places, and the signature is over the encoded subset stored with it.
+//@ func (*Signer).UpdateSignatures
+//@   props C06
+//@   may_panic
+//@   returns (out, err)
+//@   requires len(s.Certs) >= 1
+//@   ensures[subset-appended] err == nil ==> out != nil && len(out.VouchedSubsets) >= 1 && out.VouchedSubsets[len(out.VouchedSubsets) - 1] != nil
+//@   ensures[authority-index] err == nil ==> out.VouchedSubsets[len(out.VouchedSubsets) - 1].Authority == uint64(old(signatures == nil ? 0 : len(signatures.Authorities)))
+//@   ensures[authority-in-range] err == nil ==> out.VouchedSubsets[len(out.VouchedSubsets) - 1].Authority < uint64(len(out.Authorities))
+//@   ensures[own-leaf] err == nil ==> out.Authorities[out.VouchedSubsets[len(out.VouchedSubsets) - 1].Authority] == old(s.Certs[0])
+//@   ensures[signature-over-stored-bytes] err == nil ==> exists m []byte :: {bytes(m)} subsetMsgOf(bytes(m), bytes(out.VouchedSubsets[len(out.VouchedSubsets) - 1].Signed), s.Version) && signedWith(s.Algorithm, bytes(m), bytes(out.VouchedSubsets[len(out.VouchedSubsets) - 1].Sig))
+
+// SignedSubset.Encode: everything goes through the map encoder into private
+// buffers; nothing visible is written (assumed frame: the nested closures
+// over the subset-hashes map are outside the verified subset).
+//@ func (*SignedSubset).Encode
+//@   props C06
+//@   trusted
+//@   returns (bs, err)
+//@   assigns nothing
